@@ -47,6 +47,28 @@ def own_aliases(c):
     return astq.literal_str_set(node), node
 
 
+def family_names_resolve(ctx, R, family_qual, expected):
+    """The documented names of a family resolve, by the search order of from_alias, to the documented classes:
+    expected = {alias: class short name}.  A subclass that inherits its parent's alias set is visited first and takes the name."""
+    prog = ctx.prog
+    fam = prog.cls(family_qual)
+
+    def alias_of(c):
+        for k in prog.mro(c):
+            if "aliases" in k.attrs:
+                s_, _ = own_aliases(k)
+                return s_ or set()
+        return set()
+
+    for alias, want in sorted(expected.items()):
+        got = simulate_search(prog, fam, alias, alias_of)
+        ctx.check(got is not None and got.name == want, R, got if got is not None else fam, (got or fam).node,
+                  "the name '%s' builds %s" % (alias, want),
+                  "the name '%s' resolves to %s, not %s: %s" % (alias, got.short if got is not None else "nothing", want,
+                                                                "the class inherits the alias set of its parent and, being deeper in the class tree, is found first"
+                                                                if got is not None and "aliases" not in got.attrs else "alias sets overlap"))
+
+
 def simulate_search(prog, start, alias, alias_of):
     """Model of AliasedFactory.from_alias on the static class tree: LIFO stack, a
     class is pushed back before its direct subclasses, subclasses in definition
@@ -371,6 +393,13 @@ def dispatch(ctx):
             node = containing_node(cfg, f, c)
             defs = rd.reaching(node, name)
             n_mut += 1
+            for d in defs:
+                v_ = getattr(d, "value", None)
+                if isinstance(v_, ast.DictComp) and v_.generators and (v_.generators[0].ifs or len(v_.generators) > 1) and any(
+                        isinstance(x, ast.Name) and x.id == arg for x in ast.walk(v_.generators[0].iter)):
+                    ctx.bad(R, f, v_, "the working copy of the mapping is built by a filtering comprehension (`%s`): entries that fail the filter (0, False, '', "
+                            "empty containers) never reach the constructor, which then uses its defaults" % astq.text(v_)[:90],
+                            "every item of the mapping other than the alias key is forwarded as a keyword argument")
             bad = [d for d in defs if not _fresh_def(prog, f, d)]
             ctx.check(not bad and defs, R, f, c,
                       "%s.%s(...) acts on a fresh copy (dict(...)) of the caller's mapping" % (name, c.func.attr),
